@@ -200,7 +200,8 @@ def obligations(tier, seed):
     for sh, q, pk, hv in cfg_c:
         add("C07/convex.%s.%s.perm%d.hull%d" % (sh, q, pk, hv), make_convex_body(sh, q, pk), hull_variant=hv,
             bounds="ConvexPolyhedron(%s, %d vertices), free scale/translation, rotation %s, vertex order perm%d, hull output variant %d" % (sh, len(SH.CONVEX[sh]), q, pk, hv))
-    quick_s = [("cube", "r1", 0), ("cube", "id", 2), ("prism3", "r2", 1), ("pyramid", "id", 2), ("skew", "r1", 0), ("octa", "r3", 1), ("frustum", "rz90", 2), ("cubocta", "id", 1)]
+    quick_s = [("cube", "r1", 0), ("cube", "id", 2), ("prism3", "r2", 1), ("pyramid", "id", 2), ("skew", "r1", 0), ("octa", "r3", 1), ("frustum", "rz90", 2)]
+    quick_s += [("cubocta", "id", k) for k in range(6)] + [("cutcube", "r1" if k % 2 else "id", k) for k in range(8)] + [("skew", "id", k) for k in (1, 3, 4)]
     cfg_s = list(quick_s)
     if tier == "thorough":
         for sh in SH.CONVEX:
@@ -234,7 +235,7 @@ def obligations(tier, seed):
         d = O.det3(O.sub(P[1], P[0]), O.sub(P[2], P[0]), O.sub(P[3], P[0]))
         return [d > 0 if d0 > 0 else d < 0]
 
-    add("C07/convex.free_tetra", make_convex_body("tetra", "id", 0, free=True), names=names, positive=(), pre=pre, fs=fs,
-        bounds="ConvexPolyhedron on a tetrahedron with all 12 coordinates free (fixed orientation class), whole constructor; path budget",
-        budget=(250 if tier == "quick" else 2000))
+    if tier == "thorough":
+        add("C07/convex.free_tetra", make_convex_body("tetra", "id", 0, free=True), names=names, positive=(), pre=pre, fs=fs,
+            bounds="ConvexPolyhedron on a tetrahedron with all 12 coordinates free (fixed orientation class), whole constructor; path budget", budget=2500)
     return obs
